@@ -6,7 +6,7 @@ import regex as re
 from dateutil.relativedelta import relativedelta
 from tzlocal import get_localzone
 
-from dateparser.conf import apply_settings, check_settings
+from dateparser.conf import apply_settings, check_settings, synchronized
 from dateparser.custom_language_detection.language_mapping import map_languages
 from dateparser.date_parser import date_parser
 from dateparser.freshness_date_parser import freshness_date_parser
@@ -477,6 +477,7 @@ class DateDataParser:
         self.detect_languages_function = detect_languages_function
         self.previous_locales = collections.OrderedDict()
 
+    @synchronized
     def get_date_data(self, date_string, date_formats=None):
         """
         Parse string representing date and/or time in recognizable localized formats.
